@@ -30,6 +30,7 @@ def main():
     demo = demos[0] if demos else None
     if demo:
         shutil.copy(demo, os.path.join(out, os.path.basename(demo)))
+        demo = os.path.join(out, os.path.basename(demo))     # run the copy: a script's own directory precedes PYTHONPATH
     d = tempfile.mkdtemp(prefix='rvseed_')
     meta = {'seed': sid, 'breaks_property': prop, 'files': sorted({l[6:] for l in diff.splitlines() if l.startswith('+++ b/')})}
     try:
@@ -61,7 +62,10 @@ def main():
         shutil.rmtree(d, ignore_errors=True)
     mp = os.path.join(out, 'meta.json')
     old = json.load(open(mp)) if os.path.exists(mp) else {}
+    prev = old.get('checks', {})
     old.update(meta)
+    prev.update(meta['checks'])
+    old['checks'] = prev
     json.dump(old, open(mp, 'w'), indent=1)
     # mutant runs rewrote evidence files of the checks: restore them from git
     subprocess.run(['git', '-C', HERE, 'checkout', '--', 'evidence'], capture_output=True)
